@@ -57,6 +57,25 @@ def faults():
         ("missing-attribute", "st", "<%def>x</%def>", 0, 0, False, ""),
         ("illegal-attribute", "st", '<%include foo="x" file="y"/>', 0, 0, False, ""),
         ("expr-in-nonexpr-attribute", "st", '<%def name="${x}()">x</%def>', 0, 0, False, ""),
+        # leading whitespace before the first statement (trailing blanks after the tag, blank-only lines)
+        ("block-trailing-space", "py", "<% \n  x = 1\n  y = = 2\n%>", 2, 0, False, ""),
+        ("block-blank-only-lines", "py", "<%\t\n \n\t\n  y = = 2\n%>", 3, 0, False, ""),
+        ("module-block-trailing-space", "py", "<%! \n \n  y = = 2\n%>", 2, 0, False, ""),
+        ("expr-leading-newlines", "py", "${ \n \n x + }", 2, 0, False, ""),
+        # every other compile-time check
+        ("block-in-call", "st", '<%call expr="f()">\n  <%block name="b">x</%block>\n</%call>', 1, 2, False, ""),
+        ("block-in-nscall", "st", '<%self:f>\n <%block name="b">x</%block>\n</%self:f>', 1, 1, False, ""),
+        ("anonymous-block-in-namespace", "st", '<%namespace name="n">\n   <%block>x</%block>\n</%namespace>', 1, 3, False, ""),
+        ("namespace-without-name", "st", '<%namespace file="x.html"/>', 0, 0, False, ""),
+        ("namespace-file-and-module", "st", '<%namespace name="n" file="x" module="y"/>', 0, 0, False, ""),
+        ("def-missing-parenthesis", "st", '<%def name="f">x</%def>', 0, 0, False, ""),
+        ("block-with-signature", "st", '<%block name="b(x)">x</%block>', 0, 0, False, ""),
+        ("anonymous-block-args", "st", '<%block args="x">x</%block>', 0, 0, False, ""),
+        ("def-not-a-function", "st", '<%def name="1+(2)">x</%def>', 0, 0, False, ""),
+        ("import-star", "st", "<%\n  from os import *\n%>", 0, 0, False, ""),
+        ("unsupported-control-keyword", "st", "% foo x:\n% endfoo\n", 0, 0, True, ""),
+        ("not-a-partial-statement", "st", "% if x\n% endif\n", 0, 0, True, ""),
+        ("duplicate-def-block", "st", '<%def name="b()">1</%def>\n\n  <%block name="b">2</%block>', 2, 2, False, ""),
         # known findings (reported elsewhere than the fault)
         ("unclosed-tag", "st", '<%def name="f()">\n x\n y', 0, 0, False, "EOF"),
         ("def-signature-second-line", "py", '<%def\n   name="f(a,,b)">q</%def>', 1, 0, False, ""),
@@ -71,15 +90,18 @@ KNOWN = {"unclosed-tag": "c11.unclosed-tag-eof", "def-signature-second-line": "c
 def layouts(rng, tier):
     """(prefix text, indentation) pairs: leading blank lines, CRLF, preceding multi-line text, continuation lines"""
     pres = ["", "\n", "\n\n\n", "line one\nline two\n", "a\r\nb\r\n", "text \\\ncontinued\nmore\n",
-            "<%doc>\nmulti\nline\n</%doc>\n", "${'ok'}\n## comment\n", "é\U0001d4b3\n", "x\n% if True:\n y\n% endif\n"]
+            "<%doc>\nmulti\nline\n</%doc>\n", "${'ok'}\n## comment\n", "é\U0001d4b3\n", "x\n% if True:\n y\n% endif\n",
+            # characters that str.splitlines() treats as line breaks but the lexer does not
+            "a\x0cb\x0bc\n", "p\u2028q\u2029r\x85s\x1ct\x1du\x1ev\n", "\x0c\x0c\x0c\x0c\x0c\x0c\nz\n"]
     inds = ["", "  ", "\t", "x ", "é "]
     out = []
     for p in pres:
         for i in inds:
             out.append((p, i))
     if tier == "quick":
+        keep = [o for o in out if any(ch in o[0] for ch in "\x0c\u2028")][:4]
         rng.shuffle(out)
-        out = out[:14]
+        out = keep + [o for o in out if o not in keep][:12]
     return out
 
 
@@ -203,6 +225,31 @@ def run(ctx):
             # the arithmetic of Model/PyLine.v against CPython's verdict on the same code
             import ast as _ast
             pyreq, pywant = [], []
+            from mako import ast as mast
+            gen_codes = []
+            for _ in range(300 if tier == "quick" else 6000):
+                lead = "".join(rng.choice([" ", "\t", "\n", " \n", "\t\n", "\r\n"]) for _ in range(rng.randint(0, 5)))
+                ok_lines = "".join("v%d = %d\n" % (i, i) for i in range(rng.randint(0, 3)))
+                gen_codes.append((lead + ok_lines + "y = = 2\nz = 3\n", rng.randint(1, 40)))
+            for code, L in gen_codes:
+                try:
+                    _ast.parse(code.lstrip())
+                    continue
+                except SyntaxError as se:
+                    e = se.lineno
+                try:
+                    mast.PythonCode(code, source=code, lineno=L, pos=1, filename="f")
+                    got = "none"
+                except exceptions.SyntaxException as ex:
+                    got = str(ex.lineno)
+                pyreq.append("pycode|%d|%s|%d" % (L, enc(code), e))
+                pywant.append(got)
+                ctx.evaluations += 1
+                # independent: the template line of the faulty code line
+                truth = L + code[: code.index("y = = 2")].count("\n")
+                if got != str(truth):
+                    ctx.violation({"code": code, "construct_line": L, "reported": got, "expected": truth},
+                                  "ast.PythonCode reports a Python fault against the wrong template line", tags=["c11.pycode.line"])
             for code, L in [("\n\n  x = 1\n  y = = 2\n", 7), ("y = = 2", 3), ("\n\n\n a = (1,\n  2 +,\n 3)\n", 11), ("\t\n x = = 1", 1)]:
                 try:
                     _ast.parse(code.lstrip())
